@@ -928,7 +928,7 @@ def gen_case(rng, maxlen, sqlite_stream=False):
 
 
 def gen_cases(rng, tier):
-    n, maxlen = (1000, 6) if tier == "quick" else (8500, 12)
+    n, maxlen = (1000, 6) if tier == "quick" else (6000, 12)
     out = []
     for i in range(n):
         out.append(gen_case(rng, maxlen, sqlite_stream=(i % 5 == 4)))
